@@ -125,13 +125,23 @@ def _escape_executions(scn, x):
             if ext - begin > timeout_periods + 1e-9:
                 intervals.append((key, scope_key(s0), s0["w"], begin, ext))
     out = set()
+    attempt_is_escape = {}  # (worker, object root) -> whether the current creation attempt began as an escape
     for e in x.trace:
         if e["k"] != "start":
             continue
         key = ("create", e["object_root"]) if e.get("object_root") else ("test", e["ident"])
+        pre = bool(e.get("object_root")) and e["type"] == "shared_configure_install"
+        hit = False
         for (k2, sc, w, begin, ext) in intervals:
             if k2 == key and sc == scope_key(e) and w != e["w"] and begin + timeout_periods < e["t"] <= ext + 1e-9:
-                out.add(e["seq"])
+                hit = True
+        if e.get("object_root"):
+            if pre:
+                attempt_is_escape[(e["w"], e["object_root"])] = hit
+            elif attempt_is_escape.get((e["w"], e["object_root"])):
+                hit = True  # the install step of a creation attempt that began as an escape belongs to that attempt
+        if hit:
+            out.add(e["seq"])
     return out
 
 
